@@ -863,6 +863,12 @@ CHECKS["C05"].update(
 CHECKS["C05"]["technique"] = CHECKS["C05"]["technique"] + ("; fail-closed ast->Gallina translations of two pass bodies with "
     "equivalence theorems; de-overloaded execution for IR 10 overloads")
 
+# C03 and C05 were first registered as translation_validation; their principal theorems (C03_iso, C17_ser_fixpoint; the
+# C05 sequence theorem over all modelled passes incl. the certificate-checked inliner) are proved and closed, and the
+# evidence records level "proof".
+CHECKS["C03"]["level"] = "proof"
+CHECKS["C05"]["level"] = "proof"
+
 
 def main():
     props = [json.loads(l) for l in open(os.path.join(VERIF, "properties.jsonl"))]
